@@ -1,5 +1,5 @@
 (* Extract/D17.v — text-line interpreter of the C17 model and spec. *)
-From PV Require Import Base.Slice Model.DNS Model.DNSMerge Base.Text.
+From PV Require Import Base.Slice Model.DNS Model.DNSMerge Model.DNSRecords Model.DNSNbns Spec.RFC1035 Base.Text.
 Open Scope string_scope.
 Open Scope N_scope.
 
@@ -18,8 +18,274 @@ Definition show_question (r : question * nat) : string :=
   let q := fst r in
   sp (tok_of_bytes (q_name q)) (sp (dec_of_N (q_type q)) (sp (dec_of_N (q_class q)) (dec_of_nat (snd r)))).
 
+Definition is_err {A} (r : res A) : bool := match r with Err _ => true | _ => false end.
+Definition LAX : nat := 4000.
+Definition REJECT : string := "err:reject".
+(* the spec demands "an error": any error class of the implementation satisfies it *)
+Definition reject_as (model_is_err : bool) (model_obs : string) : string :=
+  if model_is_err then model_obs else REJECT.
+
+Definition known_dq_past_len (p : slice) (index : Z) (buffer : slice) : bool :=
+  match be16_at p 4 with
+  | Ok qd =>
+      (qd =? 1) && negb (Z.of_nat (len p) <? index + 6)%Z &&
+      match decodeNameZ p index (buf_of buffer) with
+      | Ok r => Nat.ltb (len p) (snd (fst r) + 4)
+      | _ => false
+      end
+  | _ => false
+  end.
+
+Definition spec_dq (p : bytes) (index : Z) (mobs : string) (merr : bool) : string :=
+  match u16_at p 4 with
+  | Some qd =>
+      if negb (qd =? 1) then mobs               (* DecodeQuestion assumes a single question: API convention *)
+      else if Nat.ltb (List.length p) 12 then mobs (* callers validate the header first (IsValid) *)
+      else if (index <? 0)%Z then reject_as merr mobs
+      else
+        let off := Z.to_nat index in
+        match ref_decode p off with
+        | None => reject_as merr mobs
+        | Some (ls, n) =>
+            if Nat.ltb NAME_LIMIT (wire_len ls) then mobs            (* over-long name: property silent *)
+            else if Nat.ltb 254 (ref_depth (S (List.length p)) p off) then mobs   (* beyond the recursion bound *)
+            else match ls with
+                 | [] => if merr then mobs                                   (* root question: outside the quantified domain *)
+                         else match u16_at p n, u16_at p (n + 2) with
+                              | Some t, Some c => show_question (mkQ (dotted ls) t c, (n + 4)%nat)
+                              | _, _ => reject_as merr mobs
+                              end
+                 | _ => match u16_at p n, u16_at p (n + 2) with
+                        | Some t, Some c => show_question (mkQ (dotted ls) t c, (n + 4)%nat)
+                        | _, _ => reject_as merr mobs
+                        end
+                 end
+        end
+  | None => mobs
+  end.
+
 Definition run_dq (p spare : bytes) (index : Z) (pre : bytes) (n : nat) : string :=
-  show_res show_question (decodeQuestion (mk_slice p spare) index (mk_buffer pre n)).
+  let ps := mk_slice p spare in
+  let buffer := mk_buffer pre n in
+  let r := decodeQuestion ps index buffer in
+  let mobs := show_res show_question r in
+  out3 mobs (spec_dq p index mobs (is_err r))
+       (if known_dq_past_len ps index buffer then "dq-past-len" else "-").
+
+(* ---- entry dumps: sections 4 / 6 / c / p, each sorted by key ---- *)
+Fixpoint bytes_ltb (a b : bytes) : bool :=
+  match a, b with
+  | [], [] => false
+  | [], _ => true
+  | _, [] => false
+  | x :: a', y :: b' => if x <? y then true else if y <? x then false else bytes_ltb a' b'
+  end.
+
+Definition triple : Type := (bytes * bytes * N)%type.
+Fixpoint ins_sorted (x : triple) (l : list triple) : list triple :=
+  match l with
+  | [] => [x]
+  | y :: r => if bytes_ltb (fst (fst x)) (fst (fst y)) then x :: l else y :: ins_sorted x r
+  end.
+Definition sort_triples (l : list triple) : list triple := fold_right ins_sorted [] l.
+
+Definition show_triple (x : triple) : string :=
+  tok_of_bytes (fst (fst x)) ++ "=" ++ tok_of_bytes (snd (fst x)) ++ "=" ++ dec_of_N (snd x).
+Definition show_section (tag : string) (l : list triple) : string :=
+  tag ++ ":" ++ join "," (map show_triple (sort_triples l)).
+Definition show_cache (c : cache) : string :=
+  join "/" [show_section "4" (c_a c); show_section "6" (c_aaaa c); show_section "c" (c_cname c); show_section "p" (c_ptr c)].
+
+Definition cache_of_entry (e : dns_entry) : cache :=
+  mkCache (map (fun r => (ir_ip r, ir_name r, ir_ttl r)) (de_ip4 e))
+          (map (fun r => (ir_ip r, ir_name r, ir_ttl r)) (de_ip6 e))
+          (map (fun r => (nr_name r, nr_cname r, nr_ttl r)) (de_cname e))
+          (map (fun r => (ir_name r, ir_ip r, ir_ttl r)) (de_ptr e)).
+Definition show_entry_dump (e : dns_entry) : string := show_cache (cache_of_entry e).
+
+(* ---- rrs: DecodeAnswers on a fresh entry ---- *)
+Definition show_rrs_res (r : res (Z * bool)) : string :=
+  show_res (fun x => "ok:" ++ dec_of_Z (fst x) ++ ":" ++ show_bool (snd x)) r.
+
+Fixpoint show_learned (l : list learned) : string :=
+  match l with
+  | [] => ""
+  | LA o i t :: r => "A" ++ tok_of_bytes o ++ tok_of_bytes i ++ dec_of_N t ++ ";" ++ show_learned r
+  | LAAAA o i t :: r => "Q" ++ tok_of_bytes o ++ tok_of_bytes i ++ dec_of_N t ++ ";" ++ show_learned r
+  | LCNAME o i t :: r => "C" ++ tok_of_bytes o ++ "=" ++ tok_of_bytes i ++ dec_of_N t ++ ";" ++ show_learned r
+  | LPTR o i t :: r => "P" ++ tok_of_bytes o ++ tok_of_bytes i ++ dec_of_N t ++ ";" ++ show_learned r
+  | LSkip :: r => "S;" ++ show_learned r
+  | LBad :: r => "B;" ++ show_learned r
+  end.
+
+(* answers of a DecodeAnswers call as the reference reads them: None = malformed *)
+Definition ref_answers (lim : nat) (p : bytes) (off : nat) : option (list ref_rr * list learned * nat) :=
+  match u16_at p 6 with
+  | Some an =>
+      match ref_rrs lim (N.to_nat an) p off with
+      | Some (rrs, e) =>
+          let ls := map (learn lim p) rrs in
+          if existsb is_bad ls then None else Some (rrs, ls, e)
+      | None => None
+      end
+  | None => None
+  end.
+
+Definition show_ref_answers (x : option (list ref_rr * list learned * nat)) : string :=
+  match x with
+  | None => "none"
+  | Some (_, ls, e) => show_learned ls ++ dec_of_nat e
+  end.
+
+Definition ptr_not_v4 (rrs : list ref_rr) : bool :=
+  existsb (fun r => (rr_type r =? 12) && match reverse_v4 (rr_owner r) with None => true | Some _ => false end) rrs.
+
+Definition nocap (b : slice) : slice := mkSlice (view b) (len b).
+
+Definition rrs_eqb (a b : rrs_out) : bool :=
+  String.eqb (show_rrs_res (fst a) ++ show_entry_dump (snd a)) (show_rrs_res (fst b) ++ show_entry_dump (snd b)).
+
+(* the CNAME owner was read after the CNAME target was decoded into the same buffer *)
+Definition known_cname_alias (p : slice) (off : Z) (buffer : slice) (e : dns_entry) : bool :=
+  negb (rrs_eqb (decodeAnswers p off buffer e) (decodeAnswers p off (nocap buffer) e)).
+
+Definition is_panic_r {A} (r : res A) : bool := match r with Panic => true | _ => false end.
+
+Definition rrs_key (p : slice) (off : Z) (buffer : slice) (e : dns_entry) (r : rrs_out)
+           (strict : option (list ref_rr * list learned * nat)) : string :=
+  if Nat.ltb (len p) 12 then "-"
+  else if is_panic_r (fst r) then "rr-header-past-cap"
+  else if match strict with Some (rrs, _, _) => ptr_not_v4 rrs | None => false end then "ptr-owner-not-ipv4"
+  else if known_cname_alias p off buffer e then "cname-owner-aliased"
+  else "-".
+
+Definition run_rrs (p spare : bytes) (off : Z) (pre : bytes) (n : nat) : string :=
+  let ps := mk_slice p spare in
+  let buffer := mk_buffer pre n in
+  let e0 := new_entry [] in
+  let r := decodeAnswers ps off buffer e0 in
+  let mobs := sp (show_rrs_res (fst r)) (show_entry_dump (snd r)) in
+  let strict := if (off <? 0)%Z then None else ref_answers NAME_LIMIT p (Z.to_nat off) in
+  let lax := if (off <? 0)%Z then None else ref_answers LAX p (Z.to_nat off) in
+  let spec :=
+    if Nat.ltb (List.length p) 12 then mobs
+    else if (off <? 0)%Z then mobs   (* negative offset: API misuse, unconstrained *)
+    else if negb (String.eqb (show_ref_answers strict) (show_ref_answers lax)) then mobs
+    else match strict with
+         | None => reject_as (is_err (fst r)) mobs
+         | Some (_, ls, e) =>
+             let '(c, u) := learn_all cache_empty false ls in
+             sp ("ok:" ++ dec_of_nat e ++ ":" ++ show_bool u) (show_cache c)
+         end in
+  out3 mobs spec (rrs_key ps off buffer e0 r strict).
+
+(* ---- pdns: ProcessDNS history on one handler ---- *)
+Definition show_ret (r : res (option dns_entry)) : string :=
+  show_res (fun x => match x with
+                     | None => "none"
+                     | Some e => "upd:" ++ tok_of_bytes (de_name e) ++ ">" ++ show_entry_dump e
+                     end) r.
+
+Definition named : Type := (bytes * cache)%type.
+Fixpoint ins_named (x : named) (l : list named) : list named :=
+  match l with
+  | [] => [x]
+  | y :: r => if bytes_ltb (fst x) (fst y) then x :: l else y :: ins_named x r
+  end.
+Definition show_table_c (t : list named) : string :=
+  join "|" (map (fun x => tok_of_bytes (fst x) ++ ">" ++ show_cache (snd x)) (fold_right ins_named [] t)).
+Definition ctable_of (t : dns_table) : list named := map (fun e => (de_name e, cache_of_entry e)) t.
+
+Fixpoint cfind (k : bytes) (t : list named) : option cache :=
+  match t with
+  | [] => None
+  | x :: r => if lab_eqb (fst x) k then Some (snd x) else cfind k r
+  end.
+Fixpoint cput (k : bytes) (c : cache) (t : list named) : list named :=
+  match t with
+  | [] => [(k, c)]
+  | x :: r => if lab_eqb (fst x) k then (k, c) :: r else x :: cput k c r
+  end.
+
+Definition show_ref_msg (x : option ref_msg) : string :=
+  match x with None => "none" | Some m => tok_of_bytes (rm_qname m) ++ ">" ++ show_learned (rm_learned m) end.
+
+Definition msg_ptr_not_v4 (p : bytes) : bool :=
+  match u16_at p 6, ref_question_at NAME_LIMIT p 12 with
+  | Some an, Some (_, off) =>
+      match ref_rrs NAME_LIMIT (N.to_nat an) p off with
+      | Some (rrs, _) => ptr_not_v4 rrs
+      | None => false
+      end
+  | _, _ => false
+  end.
+
+(* one step: model, spec expectation (given the spec table), key *)
+Definition pdns_step (t : dns_table) (st : list named) (p spare : bytes)
+  : dns_table * list named * string * string * string :=
+  let ps := mk_slice p spare in
+  let '(r, t') := processDNS t ps in
+  let mobs := show_ret r in
+  let strict := ref_message NAME_LIMIT p in
+  let lax := ref_message LAX p in
+  let unconstrained := negb (String.eqb (show_ref_msg strict) (show_ref_msg lax)) in
+  let '(sobs, st') :=
+    if unconstrained then (mobs, ctable_of t')
+    else match strict with
+         | None => (reject_as (is_err r) mobs, ctable_of t')
+         | Some m =>
+             let c0 := match cfind (rm_qname m) st with Some c => c | None => cache_empty end in
+             let '(c1, u) := learn_all c0 false (rm_learned m) in
+             if u then ("upd:" ++ tok_of_bytes (rm_qname m) ++ ">" ++ show_cache c1, cput (rm_qname m) c1 st)
+             else ("none", st)
+         end in
+  let key :=
+    if String.eqb mobs sobs then "-"
+    else if is_panic_r r then
+      (if known_dq_past_len ps 12 (mkSlice (repeat 0 64) 0) then "dq-past-len" else "rr-header-past-cap")
+    else if known_dq_past_len ps 12 (mkSlice (repeat 0 64) 0) then "dq-past-len"
+    else if msg_ptr_not_v4 p then "ptr-owner-not-ipv4"
+    else if negb (String.eqb mobs (show_ret (fst (processDNS_buf (mkSlice [] 0) t ps)))) then "cname-owner-aliased"
+    else "-" in
+  (* after a step on which spec and implementation differ the spec table follows the model *)
+  let st'' := if String.eqb mobs sobs then st' else ctable_of t' in
+  (t', st'', mobs, sobs, key).
+
+Fixpoint run_pdns (msgs : list string) (t : dns_table) (st : list named)
+         (macc sacc : list string) (key : string) : option (string * string * string) :=
+  match msgs with
+  | [] => Some (sp (join ";" (rev macc)) (show_table_c (ctable_of t)),
+                sp (join ";" (rev sacc)) (show_table_c st), key)
+  | m :: r =>
+      match split ":"%char m with
+      | [a; b] =>
+          match bytes_of_tok a, bytes_of_tok b with
+          | Some p, Some spare =>
+              let '(t', st', mobs, sobs, k) := pdns_step t st p spare in
+              (* one key per line: the first deviating step's, unless some deviating step has none *)
+              let dev := negb (String.eqb mobs sobs) in
+              let key' := if negb dev then key
+                          else if String.eqb k "-" then "unexplained"
+                          else if String.eqb key "-" then k else key in
+              run_pdns r t' st' (mobs :: macc) (sobs :: sacc) key'
+          | _, _ => None
+          end
+      | _ => None
+      end
+  end.
+
+(* ---- nbns: name extracted from a NODE STATUS answer ---- *)
+Definition show_nbns (x : option bytes) : string :=
+  match x with None => "none" | Some n => "name:" ++ tok_of_bytes n end.
+
+Definition run_nbns (b : bytes) : string :=
+  let r := nbns_answer_name (of_bytes b) in
+  let mobs := show_res show_nbns r in
+  let sobs := show_nbns (node_status_name b) in
+  let key := if String.eqb mobs sobs then "-"
+             else if is_panic_r r then "nbns-array-bound"
+             else if node_status_wf b then "nbns-first-name" else "-" in
+  out3 mobs sobs key.
 
 (* ---- merge / upd ---- *)
 Definition comma : ascii := ","%char.
@@ -81,9 +347,32 @@ Definition dispatch (kind : string) (args : list string) : string :=
     | [p; spare; index; pre; n] =>
         match bytes_of_tok p, bytes_of_tok spare, Z_of_dec index, bytes_of_tok pre, nat_of_dec n with
         | Some p', Some spare', Some index', Some pre', Some n' =>
-            out3 (run_dq p' spare' index' pre' n') "-" "-"
+            run_dq p' spare' index' pre' n'
         | _, _, _, _, _ => BADARGS
         end
+    | _ => BADARGS
+    end
+  else if String.eqb kind "rrs" then
+    match args with
+    | [p; spare; off; pre; n] =>
+        match bytes_of_tok p, bytes_of_tok spare, Z_of_dec off, bytes_of_tok pre, nat_of_dec n with
+        | Some p', Some spare', Some off', Some pre', Some n' => run_rrs p' spare' off' pre' n'
+        | _, _, _, _, _ => BADARGS
+        end
+    | _ => BADARGS
+    end
+  else if String.eqb kind "pdns" then
+    match args with
+    | [msgs] =>
+        match run_pdns (split ";"%char msgs) [] [] [] [] "-" with
+        | Some (m, s, k) => out3 m s k
+        | None => BADARGS
+        end
+    | _ => BADARGS
+    end
+  else if String.eqb kind "nbns" then
+    match args with
+    | [b] => match bytes_of_tok b with Some b' => run_nbns b' | None => BADARGS end
     | _ => BADARGS
     end
   else if String.eqb kind "merge" then
